@@ -65,6 +65,27 @@ type Engine struct {
 	Cmds    []Cmd
 	Pending []Pending
 	nonce   uint64
+	// transient forwarder failure: the next command satisfying FailOnce is refused once
+	FailOnce func(Cmd) bool
+	failed   *Cmd // refused, not yet accepted on a retry
+}
+
+// ArmFailOnce sets (or clears) the predicate selecting the next command to refuse once.
+func (e *Engine) ArmFailOnce(f func(Cmd) bool) {
+	e.mu.Lock()
+	defer e.mu.Unlock()
+	e.FailOnce = f
+}
+
+// Busy: a refused command has not been accepted yet (the management thread will retry it).
+func (e *Engine) Busy() bool {
+	e.mu.Lock()
+	defer e.mu.Unlock()
+	return e.failed != nil
+}
+
+func sameCmd(a, b Cmd) bool {
+	return a.Module == b.Module && a.Cmd == b.Cmd && a.Name.Equal(b.Name) && a.Face == b.Face && a.Cost == b.Cost
 }
 
 type timer struct{ e *Engine }
@@ -126,6 +147,14 @@ func (e *Engine) ExecMgmtCmd(module string, cmd string, args any) error {
 	}
 	e.mu.Lock()
 	defer e.mu.Unlock()
+	if e.FailOnce != nil && e.FailOnce(c) {
+		e.FailOnce = nil
+		e.failed = &c
+		return fmt.Errorf("transient failure")
+	}
+	if e.failed != nil && sameCmd(*e.failed, c) {
+		e.failed = nil
+	}
 	e.Cmds = append(e.Cmds, c)
 	return nil
 }
@@ -264,6 +293,21 @@ func (s *Sim) Settle() {
 		if after == before {
 			return
 		}
+	}
+}
+
+// SettleIdle additionally waits until every refused management command has been retried successfully.
+func (s *Sim) SettleIdle() {
+	for i := 0; ; i++ {
+		s.Settle()
+		busy := false
+		for _, nd := range s.Nodes {
+			busy = busy || nd.Eng.Busy()
+		}
+		if !busy || i > 100 {
+			return
+		}
+		time.Sleep(50 * time.Millisecond)
 	}
 }
 
